@@ -103,6 +103,20 @@ func genC15(rng *rand.Rand, tier string) *sim.Plan {
 				}
 			}
 		}
+		// a slow consumer: a subscriber that stops reading while messages pile up for it, then dies
+		if n >= 2 && chance(rng, 0.3) {
+			sc, pc := rng.IntN(n), rng.IntN(n)
+			if pc == sc {
+				pc = (sc + 1) % n
+			}
+			P.Ops = append(P.Ops, sim.Op{K: "subscribe", C: sc, Subs: []mqttc.Sub{{Filter: "t/#", QoS: byte(rng.IntN(2))}}},
+				sim.Op{K: "stall", C: sc, StallCap: pick(rng, []int{64, 512, 2048})})
+			for k := 0; k < 12+rng.IntN(20); k++ {
+				msg++
+				P.Ops = append(P.Ops, sim.Op{K: "publish", C: pc, Topic: "t/a", QoS: byte(rng.IntN(2)), Payload: fmt.Sprintf("c%d", msg), PadTo: pick(rng, []int{0, 300, 1500}), NoWait: true})
+			}
+			P.Ops = append(P.Ops, sim.Op{K: "cut", C: sc, Mode: pick(rng, []string{"rst", "fin"}), Delay: sim.Us(500 + rng.IntN(3000))})
+		}
 		// API callers
 		for a := 0; a < 1+rng.IntN(4); a++ {
 			for k := 0; k < 1+rng.IntN(4); k++ {
